@@ -344,6 +344,18 @@ func (i *interpreter) externalFor1(fn *ssa.Function) (externalFn, bool) {
 		i.stubsHit[name]++
 		return ext, true
 	}
+	// the target's one piece of unsafe header arithmetic (zygo/unsafe.go: a
+	// []byte aliasing a string's bytes, documented read-only) cannot be
+	// executed; it is modelled by its contract, the conversion []byte(s)
+	if fn.Pkg != nil && fn.Signature.Recv() == nil && fn.Name() == "UnsafeStringToByteSlice" && strings.HasSuffix(fn.Pkg.Pkg.Path(), "/zygo") {
+		i.stubsHit[name]++
+		return func(fr *frame, args []value) value {
+			b := strBytes(args[0])
+			out := make([]value, len(b))
+			copy(out, b)
+			return out
+		}, true
+	}
 	// harness intrinsics live in the main package under any import path
 	if fn.Pkg != nil && fn.Signature.Recv() == nil && strings.HasPrefix(fn.Name(), "v") {
 		if ext := intrinsics[fn.Name()]; ext != nil {
